@@ -162,6 +162,14 @@ def state(index, rep):
                       "start from the modified data: " + txt, loc=loc(rel, st))
     if not findings:
         rep.ok(rule, "memoised-results-never-modified")
+    # lazily cached instance attributes whose inputs are assigned after construction
+    from .memo import lazy_attribute_caches
+    lazy = lazy_attribute_caches(index, run_files(index))
+    rep.note_analysed("lazy_attribute_caches", [f"{cn}.{m.name}:{a}" for _, cn, m, a, _, _ in lazy])
+    for rel, cn, m, attr, stale, invalidated in lazy:
+        rep.check(not stale or bool(invalidated), rule, f"lazy-cache:{cn}.{m.name}:{attr}",
+                  f"{cn}.{m.name} keeps its first result in self.{attr}, but what it is computed from is assigned later ({'; '.join(stale[:3])}) "
+                  "and nothing resets the cached value: the result depends on when it was first asked for", loc=loc(rel, m))
     rep.require_min(rule, 60)
 
 
@@ -369,6 +377,19 @@ def fresh(index, rep):
                     and dotted(st.value.func) in ("Parameters", "Optimizer", "Interpreter", "Scenarios", "ScenarioRunner", "Extractor")]
         rep.check(not lvl, rule, f"{rel}:no-cached-instances", "a per-run object is cached at module/class level: " +
                   "; ".join(norm_src(s)[:50] for s in lvl[:3]), loc=loc(rel, lvl[0]) if lvl else rel)
+    # the option dictionary of a simulation is shared by all its countries: per-country code never writes into it
+    n_opt = 0
+    for rel in run_files(index):
+        for fnn in [n for n in ast.walk(index.module(rel)) if isinstance(n, ast.FunctionDef)]:
+            for a in fnn.args.args:
+                if "scenario_option" in a.arg:
+                    n_opt += 1
+                    bad = param_mutations(fnn, a.arg)
+                    rep.check(not bad, rule, f"shared-options:{enclosing_qual(fnn)}.{fnn.name}({a.arg})",
+                              "the option dictionary that run_model_no_trade hands to every country of a simulation is modified, so countries "
+                              "processed later run with other options than countries processed earlier: " + "; ".join(bad[:3]), loc=loc(rel, fnn))
+    if n_opt < 4:
+        raise AnalysisError(f"only {n_opt} functions take the scenario options (expected >= 4)")
     # later rounds start from deep copies of the round-1 dictionaries
     for q, names in (("Parameters.compute_parameters_second_round", ("constants_out_round1", "time_consts_round1")),
                      ("Parameters.compute_parameters_third_round", ("constants_out_round1", "time_consts_round1"))):
@@ -422,6 +443,19 @@ def det(index, rep):
                     ok = all(_in_string_context(u) for u in uses)
                 rep.check(ok, rule, f"{rel}:{enclosing_qual(n)}:clock->{getattr(st.targets[0], 'id', '?') if isinstance(st, ast.Assign) else '?'}",
                           "a wall-clock value is used other than for building a file name / label", loc=loc(rel, n))
+    from .memo import set_order_dependence
+    so = set_order_dependence(index, run_files(index))
+    seen = set()
+    for rel, n, txt in so:
+        key = (rel, enclosing_qual(n), txt)
+        if key in seen:
+            continue
+        seen.add(key)
+        rep.violation(rule, f"set-order:{rel}:{enclosing_qual(n)}:{txt[:40]}", "iteration order of a set (randomised per process for strings) reaches an "
+                      "ordered result - e.g. the order in which variables and constraints enter the LP, which selects among alternative optima: " + txt,
+                      loc=loc(rel, n))
+    if not so:
+        rep.ok(rule, "no-set-iteration-order-dependence")
     rep.require_min(rule, 20)
 
 
